@@ -190,7 +190,9 @@ class SmtpRelayClient(RelayPoolClient):
             if not rcptto.is_error():
                 break
         else:
-            raise SmtpRelayError.factory(rcpttos[0])
+            error = SmtpRelayError.factory(rcpttos[0])
+            error.rcpt_replies = rcpttos
+            raise error
         if data.is_error():
             raise SmtpRelayError.factory(data)
 
@@ -239,6 +241,16 @@ class SmtpRelayClient(RelayPoolClient):
             if rcpt_reply.is_error():
                 rcpt_results[rcpt] = SmtpRelayError.factory(rcpt_reply)
 
+    def _set_error_result(self, result, envelope, error):
+        # When every recipient was rejected, but not all in the same way, each
+        # one fails with its own reply instead of that of the first recipient.
+        rcpt_replies = getattr(error, 'rcpt_replies', None)
+        if rcpt_replies and len(set(r.code[0] for r in rcpt_replies)) > 1:
+            result.set(dict((rcpt, SmtpRelayError.factory(reply)) for rcpt, reply
+                            in zip(envelope.recipients, rcpt_replies)))
+        else:
+            result.set_exception(error)
+
     def _deliver(self, result, envelope):
         rcpt_results = dict.fromkeys(envelope.recipients)
         try:
@@ -246,7 +258,7 @@ class SmtpRelayClient(RelayPoolClient):
             self._send_envelope(rcpt_results, envelope)
             msg_result = self._send_message_data(envelope)
         except SmtpRelayError as e:
-            result.set_exception(e)
+            self._set_error_result(result, envelope, e)
             self._rset()
         else:
             for key, value in rcpt_results.items():
